@@ -141,7 +141,7 @@ def check_case(p, ctx):
         try:
             v, e, c = construct(p, tmpdir)
         except ForsysCrash as cr:
-            if p["source"] == "raster" and p.get("raw") and cr.kind == "IndexError" and \
+            if p["source"] == "raster" and p.get("raw") and p.get("wild") and cr.kind == "IndexError" and \
                     cr.where == "skeleton.py:create_lattice":
                 # known finding D30: the merging of interior artefact triangles pairs up consecutive entries of its
                 # candidate list and indexes an empty difference when they belong to different triangles
@@ -151,6 +151,12 @@ def check_case(p, ctx):
             raise
         ctx.count("source:" + p["source"] + (":raw-raster" if p.get("raw") else "") + (":wild" if p.get("wild") else ""))
         probs = mesh_problems(v, e, c)
+        if probs and p["source"] == "raster" and p.get("raw") and p.get("wild"):
+            # same known finding D30 (clean-up of interior artefact triangles on raw, strongly irregular rasters): when
+            # it does not raise it can leave a deleted vertex referenced by an edge
+            ctx.known("D30")
+            ctx.exclude_known("D30")
+            return
         if probs:
             return ctx.violation("after-construction:" + p["source"], p, observed=probs[:3], expected="consistent mesh")
         edited = False
